@@ -175,9 +175,14 @@ class ModbusUdpProtocol(protocol.DatagramProtocol):
             _logger.debug("Datagram Received: "+ hexlify_packets(data))
         if not self.control.ListenOnly:
             continuation = lambda request: self._execute(request, addr)
-            self.framer.processIncomingPacket(data, continuation,
-                                              single=self.store.single,
-                                              unit=self.store.slaves())
+            try:
+                self.framer.processIncomingPacket(data, continuation,
+                                                  single=self.store.single,
+                                                  unit=self.store.slaves())
+            finally:
+                # a datagram is self contained: never carry what is left of
+                # one (or of a failed decode) over into the next
+                self.framer.resetFrame()
 
     def _execute(self, request, addr):
         """ Executes the request and returns the result
